@@ -113,6 +113,31 @@ CHECKS["C11"] = dict(
     design_ref="DESIGN.md section 3 / C11",
 )
 
+CHECKS["C05"] = dict(
+    category="other",
+    text=("Clause-level: (W1) the explicit wipe overwrites every field of the key struct wholesale with its default / zero value and the hand-written "
+          "Default impls fill their whole array; (W2) the failure of the counter increment leads to the wipe inside the key-level increment the signing core "
+          "calls; (W3) the parameter decoder rejects zero levels, the key expansion propagates that failure, and the signing and lifetime entries go through it; "
+          "(A1) the bound the counter is compared with, evaluated by interval analysis under three partitions of the total height, is 2^t-1 for t<=63 and "
+          "unreachable for t>=64; (S4) the lifetime loop runs bottom-up, multiplies each level's (size - used) by a factor without intra-iteration dependence "
+          "on the level's own size; (A2) the accounting functions cannot fail arithmetically (panic-freedom engine, no bound on the total height). "
+          "NOT decided: that exactly 2^(sum h) signatures succeed and that the reported number equals leaves - counter (numeric identities over histories)."),
+    note="Necessary conditions only. Relies on C04 for the persistence order and C16-Z4 for the wrapper default.",
+    technique="field-coverage analysis of the wipe, result-flow idioms, guard facts, interval analysis under height partitions, intra-iteration dependence analysis, panic-freedom engine",
+    design_ref="DESIGN.md section 3 / C05",
+)
+CHECKS["C13"] = dict(
+    category="other",
+    text=("Clause-level: (S1) the counter decomposition, the increment and the lifetime computation are analysed by the panic-freedom engine as entry points "
+          "with unknown counter and any accepted height list, no bound on the total height: every overflow / shift / bounds assertion and partial call is "
+          "discharged (this is the 'without arithmetic failure' clause, decided for all inputs); (S2) the exhaustion threshold is 2^t-1 for t<=63 and never for "
+          "t>=64 (interval analysis, three partitions); (S3) the decomposition masks and shifts by the same level's height, bottom-up, element index = level index, "
+          "starting from the counter; (S4) the lifetime loop structure. NOT decided: equality with the mixed-radix digit rule for all 2^64 counters."),
+    note="S1 is a proof of its clause modulo callee summaries; S2-S4 are necessary conditions.",
+    technique="abstract interpretation over MIR (panic-freedom engine) + interval analysis under partitions + expression-DAG and intra-iteration dependence rules",
+    design_ref="DESIGN.md section 3 / C13",
+)
+
 NOT_APPLICABLE = {
     "C01": ("Round-trip completeness (sign then verify succeeds) is equality of two computations over runtime values "
             "(message, seed, counter, 6x4x5^L parameter shapes); no dataflow/typestate fact bounds it. Its structural "
